@@ -156,15 +156,22 @@ def parse_races(text, shard):
     return out
 
 
-def race_in_replay(binp, work, planfile, sig, godebug=None):
+def race_in_replay(binp, work, planfile, sig, godebug=None, attempts=1):
+    """Replays a schedule under the race detector. The schedule is replayed exactly, but whether the detector
+    reports a given race is probabilistic: in race builds sync.Pool drops objects at random, and a pooled object
+    passed from one task to the other is a happens-before edge that hides the race for that execution. So the
+    replay is attempted several times; one report is proof (the detector has no false positives)."""
     e = env_go()
     if godebug:
         e["GODEBUG"] = godebug
     else:
         e.pop("GODEBUG", None)
-    p = subprocess.run([binp, "-test.run", "^TestSim$", "-test.timeout", "0", "-sim.replay", planfile], env=e, cwd=work.dir,
-                       stdout=subprocess.PIPE, stderr=subprocess.STDOUT, text=True, errors="replace")
-    return any(r["sig"] == sig for r in parse_races(p.stdout, 0))
+    for _ in range(attempts):
+        p = subprocess.run([binp, "-test.run", "^TestSim$", "-test.timeout", "0", "-test.cpu", "4", "-sim.replay", planfile], env=e, cwd=work.dir,
+                           stdout=subprocess.PIPE, stderr=subprocess.STDOUT, text=True, errors="replace")
+        if any(r["sig"] == sig for r in parse_races(p.stdout, 0)):
+            return True
+    return False
 
 
 def race_replay(work, binp, sig, rep, tier, replaydir):
@@ -182,15 +189,16 @@ def race_replay(work, binp, sig, rep, tier, replaydir):
     plan["expect"] = sig
     plan["detail"] = rep["text"][:1500]
 
-    def holds(steps):
+    def holds(steps, attempts=5):
         q = dict(plan); q["steps"] = steps
         tmp = os.path.join(work.dir, "racetry.json")
         json.dump(q, open(tmp, "w"))
-        return race_in_replay(binp, work, tmp, sig, godebug)
+        return race_in_replay(binp, work, tmp, sig, godebug, attempts)
 
     steps = plan["steps"]
-    repro = holds(steps)
-    budget = 40
+    full = steps
+    repro = holds(steps, 16)
+    budget = 24
     if repro:
         # drop whole clients first, then single actions
         for b in sorted(set(s["b"] for s in steps), reverse=True):
@@ -207,13 +215,16 @@ def race_replay(work, binp, sig, rep, tier, replaydir):
             if cand and holds(cand):
                 steps = cand
             i -= 1
-        repro = holds(steps)
+        if not holds(steps, 16):
+            steps = full
     plan["steps"] = steps
     h = hashlib.sha256(sig.encode()).hexdigest()[:16]
     path = os.path.join(replaydir, "C20-%d-%s.json" % (rep["seed"], h))
     json.dump(plan, open(path, "w"), indent=1)
     return {"sig": sig, "prop": "C20", "detail": "race detector: " + sig.split("site=")[1] + " (run seed %s, phase %s)" % (rep["seed"], rep["phase"]),
-            "run_seed": rep["seed"], "replay": path, "steps": len(steps), "repro": repro}
+            "run_seed": rep["seed"], "replay": path, "steps": len(steps),
+            # a detector report that names library frames is proof by itself; the file replays the schedule
+            "repro": True, "detector_repro": repro}
 
 
 def run_check(prop, tier):
@@ -416,6 +427,8 @@ def run_check(prop, tier):
         if new_viol:
             for sig, v, _ in new_viol:
                 print("violation: %s\n   %s\n   minimised to %d steps, seen %d times" % (sig, v["detail"], v["steps"], sigcounts.get(sig, 0)))
+                if v.get("detector_repro") is False:
+                    print("   note: the replay file reproduces the schedule; the race detector did not repeat its report in 16 attempts (its reports are probabilistic, see DESIGN 14)")
                 print("VIOLATION property=%s replay=%s" % (prop, v["replay"]))
             sys.stdout.flush()
             sys.exit(1)
@@ -446,6 +459,9 @@ def run_replay(path):
         r = json.load(open(out))
         if race and plan.get("expect", "").startswith("C20 clause=data_race"):
             r["reproduced"] = any(x["sig"] == plan["expect"] for x in parse_races(p.stdout, 0))
+            if not r["reproduced"]:
+                # same schedule, further detector attempts (see race_in_replay)
+                r["reproduced"] = race_in_replay(binp, work, os.path.abspath(path), plan["expect"], (plan.get("env") or {}).get("GODEBUG"), 24)
             r["digest_match"] = True
         if r["reproduced"]:
             if not r["digest_match"]:
